@@ -173,7 +173,7 @@ def drop_trace_macros(text, base_line, notes, rel):
     return '\n'.join(ln for _, ln in keep), [base_line + i for i, _ in keep]
 
 
-LABEL_RX = re.compile(r'^\s*//\s*\[([A-Za-z0-9_., -]+)\]\s*$')
+LABEL_RX = re.compile(r'^\s*//\s*\[(C[0-9]{2}\.[A-Za-z0-9_.]+(?:,\s*C[0-9]{2}\.[A-Za-z0-9_.]+)*)\](\s.*)?$')
 
 
 def expand_fn(src, qual, opts, sections, tline0, notes):
